@@ -228,14 +228,14 @@ BUILD_RULE = ("one program per abstract packet of spec/Gen.tla built through con
 
 
 def c01(run):
-    return check(run, "C01", {"C01"}, [("build", TYPE_PARTS)],
+    return check(run, "C01", {"C01"}, [("build", TYPE_PARTS), ("reuse", ONE_PART)],
                  BUILD_RULE + "TLC replays the setters on the PacketAPI model and requires every accessor of the decoded packet "
                  "to equal the model and the second encoding to equal the first",
                  ["D1: domain of C01 as InC01Domain in spec/PacketAPI.tla"])
 
 
 def c02(run):
-    return check(run, "C02", {"C02"}, [("build", TYPE_PARTS)],
+    return check(run, "C02", {"C02"}, [("build", TYPE_PARTS), ("reuse", ONE_PART), ("own", ONE_PART)],
                  BUILD_RULE + "the bytes handed to the writer are read by the strict reference decoder (MQTTWire!StrictDecode) "
                  "and ObsOfWire of the result must equal the PacketAPI model state",
                  ["D2: only packets in InC02Domain are judged", "absent property = zero value"])
@@ -265,7 +265,7 @@ DECODE_STEPS_CFG = ("SPECIFICATION Spec\nINVARIANT WorkBound\nINVARIANT OffsetIn
 
 def c05(run):
     big = run.tier == "thorough"
-    return check(run, "C05", {"C05"}, [("mutants", TYPE_PARTS), ("own", ONE_PART)],
+    return check(run, "C05", {"C05"}, [("mutants", TYPE_PARTS), ("own", ONE_PART), ("many", ONE_PART)],
                  models=[("DecodeSteps", DECODE_STEPS_CFG % ((12, 6, 3) if big else (7, 4, 2)))], rule=
                  "the C04 inputs; a decode that exceeds the step budget 4*len+64 (hook), the time/memory watchdog, or returns "
                  "a packet with more list elements than the frame has bytes is a violation; DecodeSteps.tla model-checks that the "
@@ -321,7 +321,7 @@ def c09(run):
                  "lengths; the specification proves Verdict = reject for each (invariant Theorems2) and the trace specification "
                  "requires ReadPacket to return an error",
                  ["a frame is must-reject only when the first failure of the strict walk is one of the classes (a)-(d)"],
-                 keep=lambda p: p["meta"]["kind"] in ("cut", "undef", "bool", "rlfifth", "vbi5"))
+                 keep=lambda p: p["meta"]["kind"] in ("cut", "undef", "bool", "rlfifth", "vbi5", "badsubid"))
 
 
 def c10(run):
@@ -344,7 +344,7 @@ def c11(run):
 
 def c12(run):
     depth = 3 if run.tier == "thorough" else 2
-    return check(run, "C12", {"C12"}, [("api", depth)],
+    return check(run, "C12", {"C12"}, [("api", depth), ("reuse", ONE_PART)],
                  "TLC explores PacketAPI (spec/MC_API.tla) per packet type: all histories of %d calls over the complete setter "
                  "alphabet with zero/non-zero/maximal arguments and both truth values; invariants FlagsInStep, LastWriteWins, "
                  "FrameCondition hold in the model; every history is executed and after every call all accessors must equal "
@@ -354,7 +354,7 @@ def c12(run):
 
 
 def c14(run):
-    return check(run, "C14", {"C14"}, [("own", ONE_PART)],
+    return check(run, "C14", {"C14"}, [("own", ONE_PART), ("reuse", ONE_PART)],
                  "pairs of frames decoded directly from a reused buffer / by ReadPacket / next to fresh packets, the input "
                  "buffer and returned slices overwritten; after every event every live packet not named by the event must "
                  "report the accessor values of the model", [])
